@@ -233,6 +233,7 @@ def gen_random(rnd, ops, n_hist, length, depths=(1, 2, 3, 4, 5)):
 
 
 BIG = 1 << 20
+HALF = 1 << 19
 PROBES = [0, 1, 255, 256, 257, (1 << 19) - 1, 1 << 19, BIG - 1]
 
 
@@ -430,6 +431,23 @@ def run_property(prop, tier, out, binary=None):
     #    moving positions with everything the proof type exposes: decoded position, recomputed root, verdicts)
     for dd in (10, 20):
         scenarios.append((f"big-d{dd}", gen_random_big(rnd, ops, 6 if quick else 30, 20, near_end=False, depth=dd, big_batches=True), ["full", "optimal", "pm"]))
+    # 7. (C06) batches of thousands of leaves at depth 20, judged on what the backends log themselves (hook H2): the
+    #    recorder's observation would have to fold thousands of watched leaves after every call, the hook judge folds the
+    #    model's leaf map once per call.  Long enough for any chunked / sliced write path of a storage layer.
+    hook_only = set()
+    if prop == "C06":
+        n1, n2 = (2500, 4200) if quick else (9000, 20000)
+        scenarios.append(("huge-batch", [
+            {"c": "reset", "d": 20, "probe": []},
+            {"c": "set", "i": 5, "v": 77},
+            {"c": "range", "s": 1000, "vs": [100000 + k for k in range(n1)]},
+            {"c": "set", "i": 7, "v": 78},
+            {"c": "append", "v": 79},
+            {"c": "delete", "i": 1200},
+            {"c": "range", "s": HALF - 2000, "vs": [200000 + k for k in range(n2)]},
+            {"c": "delete", "i": HALF},
+            {"c": "append", "v": 80}], ["full", "optimal", "pm"]))
+        hook_only.add("huge-batch")
     total_events = 0
     distinct = nontriv = 0
     traces_ok = 0
@@ -442,6 +460,12 @@ def run_property(prop, tier, out, binary=None):
             tp, tb = execute(other[targets[1]], wd, name, sc, ["rln"])
         else:
             tp, tb = execute(binary, wd, name, sc, targets, tamper_every=(1 if prop == "C07" else 0))
+        if name in hook_only:
+            hj, hl, _ = hook.judge_dir(prop, wd, name, os.path.join(wd, f"hook-{name}"), binary, kf_names, kf_desc, out,
+                                       "harness scenario " + name)
+            hook_judged += hj
+            out.notes.append(f"{name}: {hl} hook lines, {hj} calls judged by Trace_Hook only; {_t.time() - _t0:.1f}s")
+            continue
         rows, dist, nt = summarise_trace(tp)
         _t1 = _t.time()
         res = judge(prop, wd, name, tp, tb, kf_names)
